@@ -476,3 +476,8 @@ pub fn body_probe_6(vm: &mut VM) { body_probe(vm, 6) }
 pub fn body_probe_7(vm: &mut VM) { body_probe(vm, 7) }
 pub fn body_probe_8(vm: &mut VM) { body_probe(vm, 8) }
 pub fn body_probe_9(vm: &mut VM) { body_probe(vm, 9) }
+
+// stand-in for core::str::slice_error_fail (the panic path of `&s[a..b]`): still a failure, without the Display formatting
+pub fn slice_fail(_s: &str, _begin: usize, _end: usize) -> ! {
+    panic!("str slice index is not a char boundary or out of range")
+}
